@@ -1,5 +1,6 @@
 SPECIFICATION Spec
 CONSTANTS
+  Anns = {"both", "size", "hash", "none"}
   Sizes = {0, 1, 2, 3, 4, 5}
   MaxFaults = 1
   FaultKinds = {"Flip", "Drop", "Dup", "Swap", "Cut"}
